@@ -94,6 +94,14 @@ pub fn exec(sc: &Scenario, st: &mut Stats) -> Option<Violation> {
                 }
             }
             Op::Reset { .. } => {
+                // inside a long reset storm only every 97th reset pays for the parameter comparison and a new twin
+                let in_storm = prev_was_reset && matches!(sc.ops.get(i + 1), Some(Op::Reset { .. })) && i % 97 != 0;
+                if in_storm {
+                    on(Side::Subject, || node.reset());
+                    st.fault(Fault::ResetStorm);
+                    resets += 1;
+                    continue;
+                }
                 let before = (node.display(), node.period(), node.multiplier().map(f64::to_bits));
                 on(Side::Subject, || node.reset());
                 twin = on(Side::Reference, || crate::sut::build_ref(&spec));
@@ -245,7 +253,16 @@ pub fn generate(rng: &mut Rng, tier: Tier) -> Scenario {
             ops.push(Op::RoundTrip { n: 0, times: 1, json: false });
         }
         // phase 2: the reset (sometimes a storm)
-        let k = if rng.chance(0.2) { rng.range(2, 3) } else { 1 };
+        // the reset, sometimes a storm of 2-3, rarely a storm around a power of two (a per-reset
+        // generation counter narrower than usize wraps after 256 / 65536 resets)
+        let k = if rng.chance(0.004) {
+            let base = if sp <= 16 && rng.chance(0.3) { 65_536 } else if rng.chance(0.5) { 256 } else { 512 };
+            base - 2 + rng.range(0, 4)
+        } else if rng.chance(0.2) {
+            rng.range(2, 3)
+        } else {
+            1
+        };
         for _ in 0..k {
             ops.push(Op::Reset { n: 0 });
         }
@@ -421,6 +438,20 @@ fn mega_scenario(idx: u64, specs: &[NodeSpec]) -> Scenario {
     Scenario { property: PROP.into(), stage: "sweep-mega".into(), nodes: vec![spec], ops, workers: 0 }
 }
 
+/// huge-periods (fixed corpus): the windowless EMA family with periods around 2^31 .. 2^62
+fn huge_scenario(idx: u64, specs: &[NodeSpec]) -> Scenario {
+    let spec = specs[idx as usize];
+    let t = |j: usize| Op::Feed { n: 0, x: gen::plain_tick(j), f: Fault::Clean };
+    let mut ops: Vec<Op> = (0..6).map(t).collect();
+    ops.push(Op::Format { n: 0 });
+    ops.push(Op::Reset { n: 0 });
+    ops.extend((6..14).map(t));
+    ops.push(Op::Reset { n: 0 });
+    ops.push(Op::Reset { n: 0 });
+    ops.extend((14..18).map(t));
+    Scenario { property: PROP.into(), stage: "huge-periods".into(), nodes: vec![spec], ops, workers: 0 }
+}
+
 pub fn run(tier: Tier) -> i32 {
     let c = report::ctx();
     let start = Instant::now();
@@ -443,13 +474,18 @@ pub fn run(tier: Tier) -> i32 {
     };
     let mspecs = mega_specs(mega_periods);
     let mega = if sweep.found.is_none() && !gen::skip_fixed() { Some(run_stage("sweep-mega", mspecs.len() as u64, wall_cap, &mut total, &|i| mega_scenario(i, &mspecs), &exec_guarded, &[], 3)) } else { None };
-    let seeded = if sweep.found.is_none() && mega.as_ref().map_or(true, |m| m.found.is_none()) {
+    let hspecs = gen::huge_specs();
+    let huge = if sweep.found.is_none() && mega.as_ref().map_or(true, |m| m.found.is_none()) && !gen::skip_fixed() { Some(run_stage("huge-periods", hspecs.len() as u64, wall_cap, &mut total, &|i| huge_scenario(i, &hspecs), &exec_guarded, &[], 5)) } else { None };
+    let seeded = if sweep.found.is_none() && mega.as_ref().map_or(true, |m| m.found.is_none()) && huge.as_ref().map_or(true, |m| m.found.is_none()) {
         Some(run_stage("seeded", seeded_runs, wall_cap, &mut total, &|i| generate(&mut Rng::new(run_seed(c.seed, PROP, "seeded", i)), tier), &exec_guarded, &[0, 1], 24))
     } else {
         None
     };
     let mut stages = vec![&sweep];
     if let Some(s) = &mega {
+        stages.push(s);
+    }
+    if let Some(s) = &huge {
         stages.push(s);
     }
     if let Some(s) = &seeded {
